@@ -360,11 +360,9 @@ def http_content_after_status(repo, col):
                     "with an already rebased offset: for legacy shards the "
                     "index length is subtracted twice", nontrivial=False)
     # file_exists probes
-    fe = repo.func("sharded_http_accessor", "HttpShard.file_exists")
-    txt = ftext(fe)
-    ok = ".raise_for_status()" in txt and "status_code" in txt
-    col.add(rule + ".probe", fe, "non-200/404 statuses raise", ok,
-            "" if ok else "HEAD probe treats an error status as 'absent'")
+    from .rules_more4 import probe_raises_for_failures
+    probe_raises_for_failures(repo, col, "sharded_http_accessor",
+                              "HttpShard.file_exists", rule=rule + ".probe")
 
 
 # ---------------------------------------------------------------------
@@ -473,6 +471,7 @@ def overwrite_and_gzip(repo, col):
         fn = repo.func("file_accessor", "FileAccessor." + mname, inline=True)
         defs = local_defs(fn.node)
         opens = []
+        via_helper = {}
         for c in calls_in(fn.node):
             nm = fn.module.resolve(call_name(c) or "") or ""
             if nm in ("gzip.open", "gzip.GzipFile", "os.open", "open") or (
@@ -492,11 +491,27 @@ def overwrite_and_gzip(repo, col):
                                 isinstance(c2.func, ast.Attribute) and
                                 c2.func.attr == "open"):
                             opens.append(c2)
+                            via_helper[id(c2)] = (h, c)
         if not opens:
             col.add(rule + ".overwrite", fn, "write-open", True,
                     "no write-open found", undecided=True)
             continue
         from .dataflow import control_names
+        # file objects opened to be wrapped: GzipFile(fileobj=<open call>)
+        wrapped = set()
+        scopes = [fn.node] + [h_.node for h_, _ in via_helper.values()]
+        for sc_ in scopes:
+            sdefs = local_defs(sc_)
+            for g_ in calls_in(sc_):
+                if (call_name(g_) or "").split(".")[-1] != "GzipFile":
+                    continue
+                fo = kwarg(g_, "fileobj")
+                if isinstance(fo, ast.Call):
+                    wrapped.add(id(fo))
+                elif isinstance(fo, ast.Name):
+                    for d in sdefs.get(fo.id, []):
+                        if isinstance(d.value, ast.Call):
+                            wrapped.add(id(d.value))
 
         def depends_on_overwrite(expr, stmt_defs=None):
             """Data dependence of expr on `overwrite`, or control dependence
@@ -547,8 +562,34 @@ def overwrite_and_gzip(repo, col):
                         "open mode not given explicitly", node=c,
                         undecided=True)
                 continue
-            dep = depends_on_overwrite(mode)
-            excl = exclusive_somewhere(mode)
+            if id(c) in via_helper:
+                # the open sits in a helper: its mode depends on `overwrite`
+                # when it derives from a helper parameter that receives a
+                # value depending on `overwrite` at the call
+                h, hc = via_helper[id(c)]
+                hdefs = local_defs(h.node)
+                hp = [p_ for p_ in h.params if p_ not in ("self", "cls")]
+                carrying = set()
+                for p_, a_ in zip(hp, hc.args):
+                    if depends_on_overwrite(a_):
+                        carrying.add(p_)
+                for k_ in hc.keywords:
+                    if k_.arg and depends_on_overwrite(k_.value):
+                        carrying.add(k_.arg)
+                hclos = closure_names(h.node, names_in(mode), hdefs)
+                for nm_ in list(hclos):
+                    for d in hdefs.get(nm_, []):
+                        if d.stmt is not None:
+                            hclos |= closure_names(
+                                h.node, control_names(h.node, d.stmt), hdefs)
+                dep = bool(hclos & carrying)
+                t_ = " ".join(cnorm(h.module, d.value)
+                              for nm_ in hclos for d in hdefs.get(nm_, [])
+                              if d.value is not None) + cnorm(h.module, mode)
+                excl = "'x" in t_ or "O_EXCL" in t_
+            else:
+                dep = depends_on_overwrite(mode)
+                excl = exclusive_somewhere(mode)
             okm = dep and excl
             und = not okm and (dep or excl)
             col.add(rule + ".overwrite", fn, norm(c)[:60], okm or und,
@@ -560,6 +601,12 @@ def overwrite_and_gzip(repo, col):
             # gz pairing
             if nm == "gzip.GzipFile":
                 nm = "gzip.open"
+                if kwarg(c, "fileobj") is not None and not (
+                        c.args and not (isinstance(c.args[0], ast.Constant)
+                                        and c.args[0].value is None)):
+                    continue    # the name is that of the wrapped file object
+            if id(c) in wrapped:
+                nm = "gzip.open"   # bytes pass through a GzipFile wrapper
             path_arg = c.args[0] if nm in ("gzip.open", "open", "os.open") \
                 and c.args \
                 else (c.func.value if isinstance(c.func, ast.Attribute) else None)
@@ -607,21 +654,23 @@ def overwrite_and_gzip(repo, col):
         fn = repo.func("file_accessor", "FileAccessor." + mname)
         for c in calls_in(fn.node):
             nm = fn.module.resolve(call_name(c) or "") or ""
-            if nm == "gzip.open":
+            if nm == "gzip.open" and c.args:
+                kind = _gz_name_kind(fn, c.args[0])
                 ptxt = norm(c.args[0])
-                ok = "+ '.gz'" in ptxt
-                for cc in walk_local(c.args[0]):
-                    if isinstance(cc, ast.Call):
-                        h = fn.module.functions.get(call_name(cc) or "")
-                        if h is not None:
-                            ok = "+ '.gz'" in ftext(h) and \
-                                "with_suffix" not in ftext(h)
-                col.add(rule + ".gz-name", fn, ptxt[:60], ok,
-                        "" if ok else "gzip reader does not open <name>.gz",
-                        node=c)
+                col.add(rule + ".gz-name", fn, ptxt[:60], kind != "replaced"
+                        and kind != "plain",
+                        "" if kind == "appended" else
+                        ("gzip reader does not open <name>.gz (%s)" % (
+                            "the suffix is replaced" if kind == "replaced"
+                            else "the name it opens has no .gz part")
+                         if kind in ("replaced", "plain") else
+                         "name of the gzip file is built where this rule "
+                         "does not follow it"),
+                        node=c, undecided=kind == "opaque")
             elif isinstance(c.func, ast.Attribute) and c.func.attr == "open":
+                kind = _gz_name_kind(fn, c.func.value)
                 ptxt = norm(c.func.value)
-                ok = ".gz" not in ptxt
+                ok = kind not in ("appended", "replaced")
                 col.add(rule + ".gz-name", fn, ptxt[:60], ok, "" if ok else
                         "a .gz name is read without decompression", node=c)
     # defaults: chunks overwrite, files refuse
@@ -825,6 +874,52 @@ def data_type_tables(repo, col):
 
 
 from .core import block_always_raises as block_always_raises_
+
+
+def _gz_name_kind(fn, path_expr):
+    from .core import resolve_local_call
+    """How the file name in path_expr relates to the plain name: 'appended'
+    (<name> + '.gz'), 'replaced' (with_suffix('.gz')), 'plain' (no .gz part)
+    or 'opaque' (built by code this rule does not follow)."""
+    from .dataflow import single_defs, expand
+    table = single_defs(fn.node)
+    e = expand(path_expr, table, depth=4)
+    txt = cnorm(fn.module, e)
+    appended = "+ '.gz'" in txt or '+ ".gz"' in txt
+    replaced = "with_suffix('.gz')" in txt
+    opaque = False
+    params = set(fn.params) - {"self", "cls"}
+    multi = {n for n, ds in local_defs(fn.node).items()
+             if len([d for d in ds if d.kind != "param"]) > 1}
+
+    def visit(x):
+        nonlocal appended, replaced, opaque
+        if isinstance(x, ast.Call):
+            h = resolve_local_call(fn, x)
+            if h is None:
+                h = fn.module.functions.get(call_name(x) or "")
+            if h is not None and h is not fn:
+                ht = ftext(h)
+                appended = appended or "+ '.gz'" in ht
+                replaced = replaced or "with_suffix('.gz')" in ht
+                return      # the helper builds the name from its arguments
+            nm_ = (call_name(x) or "").split(".")[-1]
+            if nm_ not in ("str", "fspath", "Path", "PurePath", "with_name",
+                           "with_suffix", "joinpath", "format", "join"):
+                opaque = True
+        if isinstance(x, ast.Name) and isinstance(x.ctx, ast.Load) and \
+                (x.id in params or x.id in multi):
+            opaque = True
+        for ch in ast.iter_child_nodes(x):
+            visit(ch)
+    visit(e)
+    if replaced:
+        return "replaced"
+    if appended:
+        return "appended"
+    if ".gz" in txt:
+        return "opaque"
+    return "opaque" if opaque else "plain"
 
 
 def _flat_pattern_use(fn):
